@@ -9,7 +9,7 @@ use crate::error::{DecodeError, DispatcherError, PayloadError, ProtocolError, Sp
 use crate::v3::codec::{self, Decoded, Encoded, Packet};
 use crate::v3::shared::{Ack, MqttShared};
 use crate::v3::{control::ProtocolMessageKind, publish::Publish};
-use crate::{payload::Payload, payload::PayloadStatus, payload::PlSender};
+use crate::{payload::Payload, payload::PayloadStatus, payload::PlSender, types::QoS};
 
 use super::control::{ProtocolMessage, ProtocolMessageAck};
 
@@ -51,6 +51,8 @@ struct Inner<C> {
     sink: Rc<MqttShared>,
     payload: Cell<Option<PlSender>>,
     inflight: RefCell<HashSet<NonZeroU16>>,
+    /// `QoS` 2 publishes that are acknowledged with PUBREC and wait for PUBREL
+    pubrel: RefCell<HashSet<NonZeroU16>>,
 }
 
 impl<T, C, E> Dispatcher<T, C, E>
@@ -72,6 +74,7 @@ where
                 payload: Cell::new(None),
                 control: Pipeline::new(control),
                 inflight: RefCell::new(HashSet::default()),
+                pubrel: RefCell::new(HashSet::default()),
             }),
             _t: PhantomData,
         }
@@ -202,7 +205,7 @@ where
                 }
             }
             Decoded::Packet(Packet::PublishRelease { packet_id }, _) => {
-                if self.inner.inflight.borrow().contains(&packet_id) {
+                if self.inner.pubrel.borrow().contains(&packet_id) {
                     self.inner.control(ProtocolMessage::pubrel(packet_id)).await
                 } else {
                     log::warn!("Unknown packet-id in PublishRelease packet");
@@ -254,14 +257,21 @@ where
     T: Service<Publish, Response = Either<(), Publish>, Error = E>,
     C: Service<ProtocolMessage, Response = ProtocolMessageAck, Error = DispatcherError<E>>,
 {
+    let qos2 = pkt.qos() == QoS::ExactlyOnce;
     let res = ctx.call(svc, pkt).await.map_err(DispatcherError::Service)?;
     match res {
         Either::Left(()) => {
             log::trace!("Publish result for packet {packet_id:?} is ready");
 
             if let Some(packet_id) = packet_id {
-                inner.inflight.borrow_mut().remove(&packet_id);
-                Ok(Some(Encoded::Packet(Packet::PublishAck { packet_id })))
+                if qos2 {
+                    // packet id is in use until PUBREL is received
+                    inner.pubrel.borrow_mut().insert(packet_id);
+                    Ok(Some(Encoded::Packet(Packet::PublishReceived { packet_id })))
+                } else {
+                    inner.inflight.borrow_mut().remove(&packet_id);
+                    Ok(Some(Encoded::Packet(Packet::PublishAck { packet_id })))
+                }
             } else {
                 Ok(None)
             }
@@ -297,6 +307,7 @@ impl<C> Inner<C> {
                 Some(Encoded::Packet(codec::Packet::PublishAck { packet_id: id }))
             }
             ProtocolMessageKind::PublishRelease(id) => {
+                self.pubrel.borrow_mut().remove(&id);
                 self.inflight.borrow_mut().remove(&id);
                 Some(Encoded::Packet(Packet::PublishComplete { packet_id: id }))
             }
